@@ -108,7 +108,7 @@ def complete (w : World) (r : Ret) : World :=
   let c := w.ctlOf t
   { w.modCtl t (fun c => { c with pc := c.pc + 1, stage := 0, prim := none,
                                     results := (c.pc, r) :: c.results }) with
-    events := ⟨t, c.pc, r, (w.ths.get t).causality⟩ :: w.events }
+    events := ⟨c.body, c.pc, r, (w.ths.get t).causality⟩ :: w.events }
 
 /-- `rt::synchronize` prologue -/
 def sync (w : World) : World := w.setThs w.ths.activeCausalityInc
